@@ -320,7 +320,11 @@ class LinComb:
 
         if isinstance(other, LinComb):
             if other.value == 0:
-                raise ValueError("Division by zero")
+                # a zero secret divisor is a wrong value, not a wrong program: same
+                # constraints under ignore_errors / a false guard
+                if not ignore_errors():
+                    raise ValueError("Division by zero")
+                res = PrivVal(0)
             elif is_guard() and (self.value % other.value == 0):
                 res = PrivVal(self.value // other.value)
             elif ignore_errors():
@@ -358,12 +362,14 @@ class LinComb:
         Costs 2 * bitlength + 4 constraints to divide
         """
         if isinstance(divisor, int):
+            if divisor == 0:
+                raise ValueError("Division by zero")
             divisor = ConstVal(divisor)
 
         if isinstance(divisor, LinComb):
-            if divisor.value == 0:
+            if divisor.value == 0 and not ignore_errors():
                 raise ValueError("Division by zero")
-            quo = PrivVal(self.value // divisor.value)
+            quo = PrivVal(self.value // divisor.value if divisor.value != 0 else 0)
             res = quo * divisor
             rem = PrivVal(self.value - res.value)
 
